@@ -12,16 +12,17 @@ import (
 func init() { props["C19"] = checkC19 }
 
 type flagReg struct {
-	call   *ast.CallExpr
-	method string
-	vobj   types.Object
-	vname  string
-	flag   string
-	def    string // canonical default
-	isCons bool
-	file   string
-	fn     string
-	cmdVar string
+	call       *ast.CallExpr
+	method     string
+	vobj       types.Object
+	vname      string
+	flag       string
+	def        string // canonical default
+	isCons     bool
+	file       string
+	fn         string
+	cmdVar     string
+	persistent bool
 }
 
 // collectFlagRegs finds every (*pflag.FlagSet).XxxVar[P](&v, name, [short,] default, usage) call.
@@ -132,6 +133,7 @@ func (c *Ctx) flagRegOf(info *types.Info, call *ast.CallExpr) *flagReg {
 		if inner, ok := unparen(sel.X).(*ast.CallExpr); ok {
 			if s2, ok := unparen(inner.Fun).(*ast.SelectorExpr); ok {
 				r.cmdVar = types.ExprString(s2.X)
+				r.persistent = s2.Sel.Name == "PersistentFlags"
 			}
 		}
 	}
@@ -150,6 +152,8 @@ func checkC19(c *Ctx) {
 	c.Extra["non_var_registrations"] = others
 	c.Floor("FLAGDEF", 150)
 
+	c.Decides("FLAGDEF-SHADOW: no command registers an option whose name is that of a persistent option of one of its ancestors: cobra (v1.5) then lists only the ancestor's entry in the command's help, with the ancestor's default and meaning, while the command line sets the command's own option")
+	c.flagShadow(regs)
 	byVar := map[types.Object][]*flagReg{}
 	var order []types.Object
 	for _, r := range regs {
@@ -248,4 +252,122 @@ func checkC19(c *Ctx) {
 			}
 		}
 	}
+}
+
+// flagShadow: option names registered on a command that are also persistent options of an ancestor.
+func (c *Ctx) flagShadow(regs []*flagReg) {
+	p := c.Pkg("cmd")
+	if p == nil {
+		return
+	}
+	parent := map[string]string{}
+	for _, f := range p.Syntax {
+		ast.Inspect(f, func(m ast.Node) bool {
+			call, ok := m.(*ast.CallExpr)
+			if !ok {
+				return true
+			}
+			sel, ok := unparen(call.Fun).(*ast.SelectorExpr)
+			if !ok || sel.Sel.Name != "AddCommand" {
+				return true
+			}
+			for _, a := range call.Args {
+				parent[types.ExprString(a)] = types.ExprString(sel.X)
+			}
+			return true
+		})
+	}
+	persistentOf := map[string]map[string]*flagReg{}
+	for _, r := range regs {
+		if r.persistent && r.cmdVar != "" && r.flag != "" {
+			if persistentOf[r.cmdVar] == nil {
+				persistentOf[r.cmdVar] = map[string]*flagReg{}
+			}
+			persistentOf[r.cmdVar][r.flag] = r
+		}
+	}
+	// X.LocalFlags().AddFlag(X.PersistentFlags().Lookup("name")): the command puts its own entry into
+	// the set its help prints (cobra 1.5 leaves out a local flag that has the name of an inherited one)
+	relisted := map[string]bool{}
+	info := p.TypesInfo
+	for _, f := range p.Syntax {
+		ast.Inspect(f, func(m ast.Node) bool {
+			call, ok := m.(*ast.CallExpr)
+			if !ok || len(call.Args) != 1 {
+				return true
+			}
+			sel, ok := unparen(call.Fun).(*ast.SelectorExpr)
+			if !ok || sel.Sel.Name != "AddFlag" {
+				return true
+			}
+			// receiver: X.LocalFlags() or a local assigned from it
+			recv := unparen(sel.X)
+			if id, isId := recv.(*ast.Ident); isId {
+				if v := identObj(info, id); v != nil {
+					ast.Inspect(f, func(q ast.Node) bool {
+						if as, ok := q.(*ast.AssignStmt); ok && len(as.Lhs) == 1 && len(as.Rhs) == 1 && identObj(info, as.Lhs[0]) == v {
+							recv = unparen(as.Rhs[0])
+						}
+						return true
+					})
+				}
+			}
+			rc, ok := recv.(*ast.CallExpr)
+			if !ok {
+				return true
+			}
+			rsel, ok := unparen(rc.Fun).(*ast.SelectorExpr)
+			if !ok || rsel.Sel.Name != "LocalFlags" {
+				return true
+			}
+			cmdVar := types.ExprString(rsel.X)
+			lk, ok := unparen(call.Args[0]).(*ast.CallExpr)
+			if !ok || len(lk.Args) != 1 {
+				return true
+			}
+			lsel, ok := unparen(lk.Fun).(*ast.SelectorExpr)
+			if !ok || lsel.Sel.Name != "Lookup" {
+				return true
+			}
+			src, ok := unparen(lsel.X).(*ast.CallExpr)
+			if !ok {
+				return true
+			}
+			ssel, ok := unparen(src.Fun).(*ast.SelectorExpr)
+			if !ok || types.ExprString(ssel.X) != cmdVar || (ssel.Sel.Name != "PersistentFlags" && ssel.Sel.Name != "Flags") {
+				return true
+			}
+			if tv, ok := info.Types[lk.Args[0]]; ok && tv.Value != nil {
+				relisted[cmdVar+"/"+strings.Trim(tv.Value.ExactString(), `"`)] = true
+			}
+			return true
+		})
+	}
+	n := 0
+	for _, r := range regs {
+		if r.cmdVar == "" || r.flag == "" {
+			continue
+		}
+		n++
+		for a, depth := parent[r.cmdVar], 0; a != "" && depth < 10; a, depth = parent[a], depth+1 {
+			if anc, ok := persistentOf[a][r.flag]; ok {
+				key := fmt.Sprintf("%s --%s", r.cmdVar, r.flag)
+				if anc.def == r.def {
+					if anc.vobj == r.vobj {
+						c.OK("FLAGDEF-SHADOW", key, r.call.Pos(), "re-registers the ancestor's option on the same storage with the same default")
+					} else {
+						c.Note("FLAGDEF-SHADOW", key, r.call.Pos(), fmt.Sprintf("--%s of %s hides the persistent --%s of %s in the help; both document default %s (different storage)", r.flag, r.cmdVar, anc.flag, a, r.def))
+					}
+					continue
+				}
+				if relisted[r.cmdVar+"/"+r.flag] {
+					c.OK("FLAGDEF-SHADOW", key, r.call.Pos(), fmt.Sprintf("hides the persistent --%s of %s (default %s), and the command adds its own entry (default %s) to its local flags, so its help lists the option it really has", anc.flag, a, anc.def, r.def))
+					continue
+				}
+				c.Violation("FLAGDEF-SHADOW", key, r.call.Pos(), fmt.Sprintf("option --%s of %s (default %s) has the name of the persistent option --%s of its ancestor %s (default %s): the help of %s lists only the inherited entry and its default, while the command line sets %s's own option - leaving --%s out (%s) is not the same as passing the default its help shows (%s)",
+					r.flag, r.cmdVar, r.def, anc.flag, a, anc.def, r.cmdVar, r.cmdVar, r.flag, r.def, anc.def)).Clause = "leaving an option out has the same effect as passing the default value shown in its help text"
+			}
+		}
+	}
+	c.Trivial("FLAGDEF-SHADOW", "scan", token.NoPos, fmt.Sprintf("%d registrations compared with the persistent options of their ancestors", n))
 }
